@@ -7,6 +7,8 @@ import sys
 
 # settings per property: (level, quick runs, thorough runs)
 CHECKS = {
+    "C09": dict(level="exploration", quick=(600, 90), thorough=(12000, 1500)),
+    "C06": dict(level="exploration", quick=(300, 80), thorough=(30000, 1500)),
     "C03": dict(level="exploration", quick=(240, 80), thorough=(20000, 1500)),
 }
 
@@ -33,6 +35,8 @@ def main():
                     default=int(os.environ.get("VERIF_WORKERS",
                                                str(min(16, os.cpu_count() or 1)))))
     ap.add_argument("--replay")
+    ap.add_argument("--exec-run", help="internal: execute a run file and "
+                    "print its returned values (cross-process clause)")
     ap.add_argument("--quiet", action="store_true")
     ap.add_argument("--survey", action="store_true",
                     help="development: count violation signatures, no minimisation")
@@ -45,6 +49,13 @@ def main():
     sys.path.insert(0, src)
     _assert_tree()
     from . import core, engines
+
+    if args.exec_run:
+        run = json.loads(pathlib.Path(args.exec_run).read_text())
+        res = engines.get(run["property"]).execute(run)
+        print("RETS " + core.jdump({"rets": res.get("rets"),
+                                    "log_digest": res["log_digest"]}))
+        return 0
 
     if args.replay:
         run = json.loads(pathlib.Path(args.replay).read_text())
